@@ -156,4 +156,23 @@ func init() {
 		Assume:   []string{"sibling names are unique (ACPI scopes do not allow duplicates); for malformed expressions only no-crash and live-or-not-found is required", "callers of free pass leaves (the tree panics by design otherwise)"},
 		Required: []string{"c13.freed_slot_reused", "c13.insert_in_the_middle", "c13.subtree_reattached", "c13.detach_last_child", "c13.detach_first_child", "c13.found_in_enclosing_scope", "c13.parent_prefixed_single_segment_not_found", "c13.malformed_lookup"},
 	})
+
+	// ------------------------------------------------------------------ ACPI (C14)
+	addEngine(&engineSpec{
+		Name: "acpi", PkgDir: "device/acpi",
+		Files: []overlayFile{
+			simkitFor("device/acpi", "acpi"),
+			{Src: "engines/acpi/harness.go.txt", Dst: "device/acpi/zz_verif_acpi_test.go", Pkg: "acpi"},
+		},
+		Anchors: []string{"kernel/device/acpi/acpi.go", "kernel/device/acpi/table/tables.go"},
+		Real:    []string{"acpi.probeForACPI, locateRSDT, validTable", "acpiDriver.DriverInit / enumerateTables / mapACPITable", "kfmt.Fprintf into the init log"},
+		Stub:    []string{"firmware memory = host arena at a fixed address below 4 GiB holding a generated image (ACPI layout)", "mapFn / unmapFn / identityMapFn = recorders returning identity pages, refusing addresses outside the arena, failing at call k"},
+	})
+	addProp(&propSpec{
+		ID: "C14", Engine: "acpi", Level: "fault_enumeration",
+		Subs: []subCheck{{Name: "C14", QuickRuns: 40000, QuickMs: 40000, ThoroughRuns: 3000000, ThoroughMs: 500000}},
+		Rule: "one evaluation = one generated firmware image (root pointer of revision 0/1/2/3/255 at the first, last or any 16-byte slot of the search area with arbitrary bytes after it; RSDT and XSDT listing DIFFERENT table sets of 0-8 tables with random bodies of 36-5000 bytes crossing page boundaries; optional FADT with 32-bit, 64-bit or both DSDT pointers in the ACPI layout) plus a fault plan: single-byte corruption of a seeded subset of listed tables / FADT / DSDT / the root pointer, decoy root pointers with a bad checksum before and after the real one, identity-mapping failure at call k. The probe result, the selected root table, the registered signature set (must equal exactly the listed tables whose bytes sum to zero plus the DSDT of a valid FADT), the table pointers and the init log are checked. Non-trivial = at least 2 listed tables; distinct = hash of (signatures, lengths, corruption pattern, revision, pointer mode, slot).",
+		Assume:   []string{"a valid extended root pointer has both checksums valid; decoys have a bad (extended) checksum", "the length field of a table is never corrupted (reading beyond firmware memory is outside the simulation)", "output order of the table summary is not compared (Go map iteration)"},
+		Required: []string{"c14.no_valid_root_pointer", "c14.decoy_before_real_root_pointer", "c14.corrupted_table_reported_and_skipped", "c14.enumeration_continued_past_corrupted_table", "c14.map_failure_propagated", "c14.xsdt_followed", "c14.rsdt_followed", "c14.dsdt_registered_mode_1", "c14.corrupted_fadt_dsdt_not_followed", "c14.root_pointer_corrupted"},
+	})
 }
